@@ -172,8 +172,8 @@ Section ProofsM.
       { intros i. pose proof (l_jac_dual true e r) as JD.
         rewrite El in JD; simpl in JD. rewrite JD. apply l_dual_zero.
         apply allc_all. exact Hall. }
-      destruct icov; simpl snd; cbv iota. Show.
-      all: rewrite (sand_entry K J n _ _ k j S Hk Hj); symmetry;
+      destruct icov; cbn [snd]; unfold Model.ezero;
+        rewrite (sand_entry K J n _ _ k j S Hk Hj); symmetry;
         (rewrite (dotn_ext_l n _ (fun _ => a0)); [apply dotn_zero_l|]);
         intros i; simpl; rewrite ?Z; try ring.
     - (* proper part constant *)
@@ -185,5 +185,59 @@ Section ProofsM.
       assert (R : forall x i, times J0 x i = times J (mask cs x) i).
       { intros x i. specialize (ST x e Ha i). rewrite El0, El in ST. exact ST. }
       destruct icov; simpl snd; cbv iota; now apply (sand_rel K cs J0 J n _ d k j S0 S R).
+  Qed.
+
+  Lemma l_simplifyC_scale cs rc c h :
+    simplifyC cs rc (CScale c h) =
+    if negb (anyc cs (ekeys h)) then CScale c h
+    else if allc cs (ekeys h) then CConst (evalC A a0 a1 ahalf aadd amul asub P ptab plog dims (CScale c h) rc)
+    else CScale c (simplifyC cs rc h).
+  Proof. reflexivity. Qed.
+
+  Lemma l_simplifyC_cases cs rc h :
+    simplifyC cs rc h = h \/ (exists c, simplifyC cs rc h = CConst c) \/
+    (anyc cs (ekeys h) = true /\ allc cs (ekeys h) = false).
+  Proof.
+    rewrite (simplifyC_eq A a0 a1 ahalf aadd amul asub P ptab plog dims).
+    destruct (anyc cs (ekeys h)); simpl; [|now left].
+    destruct (allc cs (ekeys h)); [right; left; eexists; reflexivity | right; right; split; reflexivity].
+  Qed.
+
+  (* C04_metric for Gaussian likelihood chains *)
+  Lemma gchain_metric K cs rc r h : agree cs rc r -> gchain h = true -> cshape K h = true ->
+    forall d k j, k < K -> j < dims k ->
+    metapp true (simplifyC cs rc h) r d k j = if cs k then a0 else metapp true h r (mask cs d) k j.
+  Proof.
+    intros Ha. induction h; intros Hg Hs d k j Hk Hj; try discriminate.
+    - now apply (gauss_metric K).
+    - simpl in Hg, Hs. specialize (IHh Hg Hs d k j Hk Hj).
+      rewrite l_simplifyC_scale.
+      destruct (anyc cs (ekeys h)) eqn:Hany; simpl negb; cbv iota.
+      + destruct (allc cs (ekeys h)) eqn:Hall.
+        * (* everything constant *)
+          assert (E : simplifyC cs rc h = CConst (evalC A a0 a1 ahalf aadd amul asub P ptab plog dims h rc))
+            by (rewrite (simplifyC_eq A a0 a1 ahalf aadd amul asub P ptab plog dims), Hany, Hall; reflexivity).
+          rewrite E in IHh.
+          unfold Model.metapp at 1. cbn [Model.linC snd]. simpl.
+          unfold Model.metapp at 1 in IHh. cbn [Model.linC snd] in IHh. simpl in IHh.
+          destruct (cs k); [reflexivity|]. rewrite metapp_CScale. rewrite <- IHh.
+          unfold Model.ezero. destruct (anonneg c); [ring | reflexivity].
+        * rewrite !metapp_CScale. rewrite IHh. destruct (cs k); destruct (anonneg c); try reflexivity; ring.
+      + assert (E : simplifyC cs rc h = h)
+          by (rewrite (simplifyC_eq A a0 a1 ahalf aadd amul asub P ptab plog dims), Hany; reflexivity).
+        rewrite E in IHh.
+        rewrite !metapp_CScale. rewrite IHh. destruct (cs k); destruct (anonneg c); try reflexivity; ring.
+  Qed.
+
+  Lemma gchain_has_met cs rc r h : gchain h = true -> allc cs (ekeys h) = false ->
+    has_met true (simplifyC cs rc h) r = has_met true h r.
+  Proof.
+    induction h; intros Hg Hall; try discriminate.
+    - rewrite l_simplifyC_eq. simpl in Hall. rewrite Hall.
+      destruct (anyc cs (keys e)); simpl negb; cbv iota; unfold Model.has_met; cbn [Model.linC Model.linE];
+        repeat match goal with |- context [lin true ?x r] => destruct (lin true x r) end; now destruct icov.
+    - simpl in Hg, Hall. rewrite l_simplifyC_scale. rewrite Hall.
+      destruct (anyc cs (ekeys h)); simpl negb; cbv iota; [|reflexivity].
+      rewrite !has_met_CScale. now rewrite IHh.
   Qed.
 End ProofsM.
